@@ -358,7 +358,7 @@ def run_lts_tie(rep, tier, seed, viol):
     rng = random.Random(seed * 7919 + 404)
     cases = schedule_cases(rng, tier)
     n = 150 if tier == "quick" else 2000
-    root = os.path.join(WORK, "run-C04-lts")
+    root = os.path.join(RUNS, "run-C04-lts")
     done = 0
     for case in cases[:n]:
         mfs, pool, sname, setup, a, stop, b = case
